@@ -172,7 +172,7 @@ class Encoder
 public:
   explicit Encoder(Chooser &ch) : ch_(ch) {}
   Bytes out;
-  int pointersTotal = 0, pointersInRdata = 0, maxHops = 0, pointerToPointer = 0, pointerMidName = 0;
+  int pointersTotal = 0, pointersInRdata = 0, maxHops = 0, pointerToPointer = 0, pointerMidName = 0, pointerBeyond4K = 0;
 
   void u8(unsigned v) { out.push_back((std::uint8_t)v); }
   void u16(unsigned v)
@@ -229,6 +229,7 @@ public:
         ++pointersTotal;
         if (inRdata) ++pointersInRdata;
         if (t.isPointer) ++pointerToPointer;
+        if (t.off >= 4096) ++pointerBeyond4K;
         if (i > 0) ++pointerMidName;
         if (hops > maxHops) maxHops = hops;
         return 1;
@@ -400,23 +401,29 @@ public:
   }
 
   /// strict name decoding at `pos` (advanced past the name as found in place).
-  /// `limit`: the in-place part must end at or before this offset.
+  /// `limit`: the in-place part must end at or before this offset. Every pointer must
+  /// go strictly before the label run it was found in, and the run it leads to must end
+  /// before that run starts (a *prior* occurrence), so decoding always terminates.
+  int lastPointers = 0; // pointers followed by the last name() call
   bool name(std::size_t &pos, Labels &out, std::size_t limit)
   {
     out.clear();
-    std::size_t cur = pos, segStart = pos, total = 1;
+    lastPointers = 0;
+    std::size_t cur = pos, segStart = pos, bound = limit, total = 1;
     bool jumped = false;
     for (;;)
     {
-      if (cur >= (jumped ? n_ : limit)) return fail("name runs off");
+      if (cur >= bound) return fail("name runs off");
       unsigned b = d_[cur];
       if ((b & 0xC0) == 0xC0)
       {
-        if (cur + 2 > (jumped ? n_ : limit)) return fail("pointer cut");
+        if (cur + 2 > bound) return fail("pointer cut");
         std::size_t tgt = ((b & 0x3Fu) << 8) | d_[cur + 1];
         if (tgt < 12 || tgt >= segStart) return fail("pointer not strictly backwards");
         if (!jumped) pos = cur + 2;
         jumped = true;
+        ++lastPointers;
+        bound = segStart;
         cur = segStart = tgt;
         continue;
       }
@@ -426,7 +433,7 @@ public:
         if (!jumped) pos = cur + 1;
         return true;
       }
-      if (cur + 1 + b > (jumped ? n_ : limit)) return fail("label cut");
+      if (cur + 1 + b > bound) return fail("label cut");
       total += 1 + b;
       if (total > 255) return fail("name too long");
       out.emplace_back(reinterpret_cast<const char *>(d_ + cur + 1), b);
@@ -452,11 +459,16 @@ private:
     return true;
   }
 
+  bool rname(std::size_t &p, Labels &out, std::size_t end, RR &r)
+  {
+    if (!name(p, out, end)) return false;
+    r.pointersInRdata += lastPointers;
+    return true;
+  }
   bool record(std::size_t &pos, RR &r)
   {
-    std::size_t nameAt = pos;
     if (!name(pos, r.owner, n_)) return false;
-    r.pointersInOwner = countPointer(nameAt, pos);
+    r.pointersInOwner = lastPointers;
     if (pos + 10 > n_) return fail("rr fixed fields");
     r.type = rd16(pos);
     r.cls = rd16(pos + 2);
@@ -484,13 +496,13 @@ private:
     case T_NS:
     case T_CNAME:
     case T_PTR:
-      if (!name(p, r.n1, end)) return false;
+      if (!rname(p, r.n1, end, r)) return false;
       break;
     case T_MX:
       if (rdlen < 3) return fail("MX length");
       r.v1 = rd16(p);
       p += 2;
-      if (!name(p, r.n1, end)) return false;
+      if (!rname(p, r.n1, end, r)) return false;
       break;
     case T_SRV:
       if (rdlen < 7) return fail("SRV length");
@@ -498,11 +510,11 @@ private:
       r.v2 = rd16(p + 2);
       r.v3 = rd16(p + 4);
       p += 6;
-      if (!name(p, r.n1, end)) return false;
+      if (!rname(p, r.n1, end, r)) return false;
       break;
     case T_SOA:
-      if (!name(p, r.n1, end)) return false;
-      if (!name(p, r.n2, end)) return false;
+      if (!rname(p, r.n1, end, r)) return false;
+      if (!rname(p, r.n2, end, r)) return false;
       if (p + 20 != end) return fail("SOA numeric fields");
       for (int i = 0; i < 5; ++i) r.soa[i] = rd32(p + 4 * (std::size_t)i);
       p = end;
@@ -513,7 +525,7 @@ private:
       r.v2 = rd16(p + 2);
       p += 4;
       if (!charString(p, end, r.s1) || !charString(p, end, r.s2) || !charString(p, end, r.s3)) return false;
-      if (!name(p, r.n1, end)) return false;
+      if (!rname(p, r.n1, end, r)) return false;
       break;
     case T_TXT:
       if (rdlen == 0) return fail("TXT empty");
@@ -529,17 +541,9 @@ private:
       p = end;
     }
     if (p != end) return fail("rdata not consumed exactly");
-    if (t && hasRdataName(t))
-      for (std::size_t i = r.rdataPos; i + 1 < end; ++i) // rough count, for statistics only
-        if ((d_[i] & 0xC0) == 0xC0) { r.pointersInRdata = 1; break; }
     pos = end;
     return true;
   }
-  int countPointer(std::size_t from, std::size_t to) const
-  {
-    return (to >= from + 2 && (d_[to - 2] & 0xC0) == 0xC0) ? 1 : 0;
-  }
-
   const std::uint8_t *d_;
   std::size_t n_;
 };
